@@ -1420,7 +1420,7 @@ def rule_level_stencil(chk):
     cls_ = M.find_class(t, 'StratifiedHashNNPS')
     # one-line helpers (`_get_h_max`) written in place and locals that merely name an attribute (`level_sizes = self.current_cells`) written out: the level's radius is then the
     # same expression whether the method calls the helper, keeps the product in a local or hoists the attributes first
-    fn = M.self_aliases_inlined_deep(M.inline_helpers(cls_, M.find_func(cls_, 'find_nearest_neighbors'), keep=set(n_ for n_ in M.methods(cls_) if n_ != '_get_h_max')))
+    fn = M.self_aliases_inlined_deep(M.inline_helpers(cls_, M.find_func(cls_, 'find_nearest_neighbors'), keep=set(n_ for n_ in M.methods(cls_) if n_ != '_get_h_max'), module=t))
     who = 'StratifiedHashNNPS.find_nearest_neighbors'
     n, bad = 0, None
     hq = None
